@@ -627,6 +627,13 @@ class Prov:
         oc = self._option_combinator(c, args)
         if oc is not None:
             return oc
+        if c["name"] in ("call", "call_mut", "call_once") and len(args) == 2 and "ops::function" in c.get("path", ""):
+            # calling a local closure: `flag(6, 0)` is the closure's body with its parameters bound
+            tup = strip(args[1])
+            if tup[0] == "agg" and tup[1] == "tuple":
+                v = self._closure_value(args[0], [x for _, x in tup[3]])
+                if v is not None:
+                    return v
         inl = self._transparent(key, c, args, depth)
         if inl is not None:
             return inl
